@@ -21,6 +21,7 @@
 void vp_fail(const char *msg, const char *file, int line);
 void vp_infeasible(const char *what, const char *file, int line);
 void vp_cover_hit(const char *msg);
+void vp_oracle_mismatch(const char *msg);
 #define VP_ASSERT(c, msg) do { if (!(c)) vp_fail(msg, __FILE__, __LINE__); } while (0)
 #define VP_ASSUME(c) do { if (!(c)) vp_infeasible(#c, __FILE__, __LINE__); } while (0)
 #define VP_COVER(c, msg) do { if (c) vp_cover_hit(msg); } while (0)
